@@ -250,6 +250,11 @@ impl ClientState {
         self.correlation
     }
 
+    #[cfg(feature = "verif_hooks")]
+    pub fn verif_set_correlation(&mut self, correlation: i32) {
+        self.correlation = correlation;
+    }
+
     pub fn find_broker<'a>(&'a self, topic: &str, partition_id: i32) -> Option<&'a str> {
         self.topic_partitions
             .get(topic)
